@@ -166,5 +166,21 @@ CHECKS["C08"] = dict(
     technique="TLA+ lexical reference + as-implemented node-graph model enumerated with TLC; every program replayed on real with-block rule trees",
 )
 
+CHECKS["C10"] = dict(
+    engine="Laziness",
+    category="exploration",
+    text=("Laziness.tla: the family of demand-driven nested-loop evaluators (loop order free); Need(order, k) = the domain prefixes "
+          "such an evaluator has pulled after k results; an observation is justified iff some order bounds every pulled prefix "
+          "by Need + 1; construction must log no user-data event. The harness records, for ~500 query shapes (fragment "
+          "conditions of EQLCore.tla, quantified result constraints, predicate / symbolic-function / condition-free queries, "
+          "rule trees) and k = 1..3, what logging one-shot generator domains and logging attribute properties saw; TLC "
+          "validates every observation in batch against Laziness.tla (code -> spec). The first k results must be a prefix of "
+          "the full sequence and re-evaluating the abandoned query must give the full sequence."),
+    design_ref="DESIGN.md §4 C10",
+    note=("Trusted: TLC, the harness instrumentation (user-side logging objects, no krrood hook), the satisfying pairs taken from an "
+          "uninstrumented evaluation (C01 checks those). Any loop order and a look-ahead of one element per domain are accepted."),
+    technique="harness-recorded pull logs validated in batch by TLC against a TLA+ demand-driven evaluator family (trace validation)",
+)
+
 NOT_YET = "check not built yet in this build round (specified in DESIGN.md §4; will be claimed when its TLA+ module and binding exist)"
 NOT_APPLICABLE = {}
